@@ -38,7 +38,18 @@ RULE = ("reversible chains from random connected symmetric integer count matrice
         "2^-k p) must equal 2^-k net_fluxes(T, p) bit for bit, `scale-covariance`), or a heavy absorbing ground state (diagonal "
         "count 10^9..10^20, all other populations ~10^-K) so that net fluxes lie partly or wholly below 1e-12; all 8 containers; "
         "in this stream the flux clauses and the Coq comparison use 1e-9 * (largest exact reactive flux) instead of 1e-9. "
-        "Stream `range` (30 / 300): a few edges carry 10^2..10^4 times the counts of the others (net fluxes spanning decades; populations given; fluxes to the ordinary 1e-9, reactive populations to max(1e-9, 2e-11 / normaliser): forward error bound of d_i / sum d under the stiff committor solve's error)")
+        "Stream `range` (30 / 300): a few edges carry 10^2..10^4 times the counts of the others (net fluxes spanning decades; populations given; fluxes to the ordinary 1e-9, reactive populations to max(1e-9, 2e-11 / normaliser): forward error bound of d_i / sum d under the stiff committor solve's error). "
+        "Second wave. Stream `nearsym` (36 / 288): reversible rare-event chains whose transition matrix is symmetric except for entries below "
+        "1e-8 while the stationary vector is far from uniform (symmetric counts: basin A with all row sums 2^K, basin B with all row sums r 2^K, "
+        "r = 2, 4, 8, blocks exactly symmetric after division; 1..3 crossing edges of count 1..3; K >= 29, r 2^K <= 2^36; labels shuffled or "
+        "not), source set in one basin and sink set in the other, populations computed by the code (5 of 6) or given, all 8 containers; flux "
+        "clauses and the Coq comparison at (R / 2^42) * largest exact flux, reactive populations at R / 2^42 (R = largest row sum; <= 1.6 %; "
+        "every clause still holds on the unchanged code at 1/60 of it, a uniform stationary vector is >= 17 % off). Stream `large` (12 / 46): 60..300 "
+        "states with 3..10 % of the edges, one case per sparse container and ndarray, plus dense arrays with 513..700 states (2 quick / 6 "
+        "thorough); results kept as (i, j, value) triplets; the clauses are evaluated in double arithmetic (numpy; rounding <= 1e-12 against the "
+        "tolerance 1e-9: net flux = positive part of f - f^T for every entry, one direction per pair, conservation, definition against the code's "
+        "own committor, whose equations are checked, reactive populations against a dense solve of the committor equations done by the "
+        "harness) and the sparse results are compared with the code's dense results on the same matrix (`dense-sparse-agree`); oracle only")
 TRUSTED = ["translator/tr_flux.py: statement shapes of tpt.py and the shape typing of NumPy broadcasting / scipy.sparse "
            ".multiply (M * v[:, None] = row_scale, M * v = col_scale; entry semantics in Base/FluxBase.v, proved equal to "
            "the model in Proof/FluxGenProofs.v, exercised by the correspondence on every case)",
@@ -53,6 +64,8 @@ ASSUMPTIONS = ["transition matrix square, populations vector of the matrix dimen
                "populations (eq_probs in single precision is an accuracy question outside the property)",
                "small-magnitude stream: populations given (eq_probs cannot resolve populations of 1e-13 next to one of ~1), heavy "
                "state absorbing (as an intermediate state 1 - T_gg is not resolved in doubles)",
+               "near-symmetric stream: source and sink sets in different basins (with both in one basin the other basin holds no "
+               "absorbing state and the committor solve itself is only good to ~1e-6), smallest crossing probability >= 2^-36",
                "read-only buffers: csr/csc/coo/bsr/dia only (scipy's own lil indexing needs writeable row lists)",
                "reactive populations: clause applies when the normaliser sum(pi q (1-q)) is non-zero (otherwise no "
                "probability vector vanishing on sources and sinks exists; the code returns NaN, the model None)"]
@@ -153,19 +166,22 @@ def generate(rng, tier):
     # ---- round 3s streams (appended: the cases above are unchanged)
     k3 = 1 if tier == "quick" else 10
     # (a) memory layout / container representation / argument forms
+    dense_deck, sparse_deck = [], []
     for k in range(70 * k3):
         n = rng.choice(sizes)
         C = _counts(rng, n)
         src, snk = _sets(rng, n)
         c = {"C": C, "src": src, "snk": snk, "pops": rng.choice(["given", "given", "given-unnormalised", "computed"]),
              "scalar_sets": False, "stream": "layout"}
-        if rng.random() < 0.7:
+        # layouts / representations dealt from reshuffled decks (not drawn independently): every one of them occurs in
+        # every run, whatever the seed
+        if k % 10 < 7:
             c["fmt"] = "dense"
-            c["layout"] = rng.choice(DENSE_LAYOUTS)
+            c["layout"] = _deal(rng, DENSE_LAYOUTS, dense_deck)
         else:
-            c["fmt"] = rng.choice(FMTS[1:])
-            c["layout"] = rng.choice(["f32", "explicit-zeros"] + {"csr": ["unsorted", "idx64", "ro"], "csc": ["unsorted", "idx64", "ro"],
-                                                                 "coo": ["dups", "dups", "ro"], "bsr": ["ro"], "dia": ["ro"]}.get(c["fmt"], []))
+            c["layout"] = _deal(rng, SPARSE_REPRS, sparse_deck)
+            c["fmt"] = rng.choice({"ro": ["csr", "csc", "coo", "bsr", "dia"], "unsorted": ["csr", "csc"], "idx64": ["csr", "csc"],
+                                   "dups": ["coo"]}.get(c["layout"], FMTS[1:]))
         if "f32" in c["layout"]:
             c["C"] = _dyadic(rng, C)           # T exactly representable in float32: same chain in both precisions
             if c["pops"] == "computed":        # eq_probs in single precision: accuracy outside the property
@@ -205,11 +221,144 @@ def generate(rng, tier):
         src, snk = _sets(rng, n)
         cases.append({"C": C, "src": src, "snk": snk, "pops": "given", "fmt": rng.choice(FMTS),
                       "scalar_sets": False, "stream": "range"})
+    cases += _wave2(rng, tier)
     return cases
+
+
+# ----------------------------------------------------------------------------- round 3s, second wave: generators
+BIG = 40      # more states than this: oracle in double arithmetic (numpy), no Coq comparison, results kept as triplets
+
+
+def _big(c):
+    return len(c["C"]) > BIG
+
+
+def _sym_block(rng, n, k):
+    """connected symmetric count matrix whose every row sums to 2^k (diagonal topped up)"""
+    for _ in range(200):
+        C = [[0] * n for _ in range(n)]
+        for i in range(n):
+            for j in range(i + 1, n):
+                if rng.random() < 0.8:
+                    C[i][j] = C[j][i] = rng.randint(1, 3)
+        if not _connected(C) or any(sum(r) >= 2 ** k for r in C):
+            continue
+        for i in range(n):
+            C[i][i] = 2 ** k - sum(C[i])
+        return C
+    return None
+
+
+def _nearsym(rng):
+    """reversible rare-event chain whose TRANSITION MATRIX is symmetric except for entries below 1e-8 while its stationary
+    vector is far from uniform: symmetric counts, basin A with every row sum 2^K, basin B with every row sum r 2^K
+    (r = 2, 4, 8), so that inside each basin T = (block counts) / 16 is exactly symmetric; 1..3 crossing edges of count
+    1..3, i.e. probabilities w 2^-K one way and w 2^-K / r the other way (K >= 29, r 2^K <= 2^36); labels shuffled.
+    -> (C, basin-of-state list)"""
+    for _ in range(100):
+        a, b, k = rng.randint(2, 4), rng.randint(2, 4), 4
+        r = rng.choice([2, 4, 8])
+        K = rng.randint(29, 36 - r.bit_length() + 1)     # largest row sum r 2^K <= 2^36 (see _near_rel)
+        A, B = _sym_block(rng, a, k), _sym_block(rng, b, k)
+        if A is None or B is None:
+            continue
+        n = a + b
+        C = [[0] * n for _ in range(n)]
+        for i in range(a):
+            for j in range(a):
+                C[i][j] = A[i][j] << (K - k)
+        for i in range(b):
+            for j in range(b):
+                C[a + i][a + j] = (B[i][j] * r) << (K - k)
+        for _ in range(rng.choice([1, 1, 2, 3])):
+            i, j = rng.randrange(a), a + rng.randrange(b)
+            if C[i][j]:
+                continue
+            w = rng.randint(1, 3)
+            C[i][j] = C[j][i] = w
+            C[i][i] -= w
+            C[j][j] -= w
+        if rng.random() < 0.5:       # the heavy basin first or last
+            perm = list(range(n))
+        else:
+            perm = list(range(n))
+            rng.shuffle(perm)
+        C = [[C[perm[i]][perm[j]] for j in range(n)] for i in range(n)]
+        basin = [0 if perm[i] < a else 1 for i in range(n)]
+        return C, basin
+    return None, None
+
+
+def _large_counts(rng, n, dens):
+    """connected symmetric counts on many states: a ring through all states in a shuffled order plus random edges at the
+    given density, self transitions on half of the states"""
+    order = list(range(n))
+    rng.shuffle(order)
+    C = [[0] * n for _ in range(n)]
+    for a, b in zip(order, order[1:] + order[:1]):
+        C[a][b] = C[b][a] = rng.randint(1, 6)
+    for i in range(n):
+        for j in range(i + 1, n):
+            if rng.random() < dens:
+                C[i][j] = C[j][i] = rng.randint(1, 6)
+        if rng.random() < 0.5:
+            C[i][i] = rng.randint(1, 6)
+    return C
+
+
+def _wave2(rng, tier):
+    out = []
+    k3 = 1 if tier == "quick" else 8
+    # (d) near-symmetric transition matrices with a far-from-uniform stationary vector; populations computed (mostly)
+    for k in range(36 * k3):
+        C, basin = _nearsym(rng)
+        if C is None:
+            continue
+        n = len(C)
+        A = [i for i in range(n) if basin[i] == 0]
+        B = [i for i in range(n) if basin[i] == 1]
+        rng.shuffle(A)
+        rng.shuffle(B)
+        # source and sink in different basins (with both in one basin the other basin is a side pocket without an
+        # absorbing state and the committor solve itself is only good to ~1e-6: C07's business, not this property's)
+        if k % 2:
+            src, snk = A[:rng.randint(1, len(A) - 1)], B[:rng.randint(1, len(B) - 1)]
+        else:
+            src, snk = B[:rng.randint(1, len(B) - 1)], A[:rng.randint(1, len(A) - 1)]
+        out.append({"C": C, "src": src, "snk": snk, "pops": "given" if k % 6 == 5 else "computed",
+                    "fmt": FMTS[(k // 3) % len(FMTS)] if k % 3 else "dense", "scalar_sets": False, "stream": "nearsym"})
+    # (e) many states, few transitions per state (60..300 states, density 3..10 %), every container; oracle only
+    plan = [(60, "csr"), (75, "lil"), (90, "csc"), (110, "coo"), (140, "dok"), (170, "bsr"), (200, "dia"), (240, "csr"),
+            (300, "csc"), (120, "dense")]
+    for rep in range(k3 if tier == "quick" else 4):
+        for n, fmt in plan:
+            if rep:
+                n = rng.randint(60, 300)
+            C = _large_counts(rng, n, rng.choice([0.03, 0.05, 0.07, 0.10]))
+            perm = rng.sample(range(n), 6)
+            out.append({"C": C, "src": perm[:rng.randint(1, 3)], "snk": perm[3:3 + rng.randint(1, 3)],
+                        "pops": rng.choice(["given", "computed"]), "fmt": fmt, "scalar_sets": False, "stream": "large"})
+    # (f) dense arrays with more than 512 rows
+    for n in ([513, rng.randint(514, 700)] if tier == "quick" else [513, 514, 600, 640, 700, rng.randint(514, 700)]):
+        C = _large_counts(rng, n, rng.choice([0.01, 0.02]))
+        perm = rng.sample(range(n), 6)
+        out.append({"C": C, "src": perm[:rng.randint(1, 3)], "snk": perm[3:3 + rng.randint(1, 3)],
+                    "pops": "given", "fmt": "dense", "scalar_sets": False, "stream": "large"})
+    return out
 
 
 DENSE_LAYOUTS = ["F", "F", "T-view", "T-view", "strided", "strided-F", "neg-strides", "readonly", "readonly-F",
                  "f32", "f32-F", "matrix"]
+SPARSE_REPRS = ["f32", "explicit-zeros", "ro", "unsorted", "idx64", "dups", "ro", "explicit-zeros"]
+
+
+def _deal(rng, items, deck):
+    if not deck:
+        deck.extend(items)
+        rng.shuffle(deck)
+    return deck.pop()
+
+
 POPS_FORMS = ["array", "strided", "readonly", "readonly", "list", "tuple"]
 SETS_FORMS = ["list", "array", "array32", "readonly", "tuple", "scalar"]
 
@@ -227,6 +376,14 @@ def _dyadic(rng, C):
 
 
 # ----------------------------------------------------------------------------- exact data
+def _float_data(c):
+    """many states: the double transition matrix and stationary vector straight from the counts (each entry the correctly
+    rounded quotient, exactly what float(Fraction) gives)"""
+    C = np.array(c["C"], dtype=float)
+    rs = C.sum(axis=1)
+    return C / rs[:, None], rs / rs.sum()
+
+
 def _exact(c):
     C = c["C"]
     n = len(C)
@@ -295,7 +452,26 @@ def _mat(x):
     a = x.toarray() if sp.issparse(x) else np.asarray(x)
     if a.ndim != 2 or not np.all(np.isfinite(a)):
         return {"bad": "shape %s finite %s" % (a.shape, bool(np.all(np.isfinite(a))))}
+    if a.shape[0] > BIG:
+        # many states: the non-zero entries as (i, j, value) triplets, values as Python floats (exact in JSON)
+        a = np.array(a, dtype=float)
+        ii, jj = np.nonzero(a)
+        return {"val": None, "n": list(a.shape), "ij": [ii.tolist(), jj.tolist()], "v": a[ii, jj].tolist(), "kind": type(x).__name__}
     return {"val": [[_fr(v) for v in row] for row in a], "kind": type(x).__name__}
+
+
+def _unmat(x):
+    a = np.zeros(tuple(x["n"]))
+    a[x["ij"][0], x["ij"][1]] = x["v"]
+    return a
+
+
+def _digest(a):
+    import hashlib
+    a = np.asarray(a)
+    if a.size <= 4096:
+        return repr(a.tolist())         # repr: nan compares equal to nan
+    return "sha1:" + hashlib.sha1(np.ascontiguousarray(a).tobytes()).hexdigest() + " of %d values" % a.size
 
 
 def _vec(x):
@@ -424,7 +600,7 @@ def _snap(x):
     """everything a caller can observe of an argument object"""
     import scipy.sparse as sp
     if sp.issparse(x):
-        d = {"format": x.format, "shape": tuple(x.shape), "dtype": str(x.dtype), "dense": repr(x.toarray().tolist())}
+        d = {"format": x.format, "shape": tuple(x.shape), "dtype": str(x.dtype), "dense": _digest(x.toarray())}
         # the matrix a caller can observe: container kind, dtype and entries.  (scipy's own conversions sort the
         # index arrays of an unsorted csr/csc argument in place; that is not a change of the matrix.)
         d["writeable"] = [bool(v.flags.writeable) for v in (getattr(x, a, None) for a in ("data", "indices", "indptr", "row", "col", "offsets"))
@@ -432,7 +608,7 @@ def _snap(x):
         return d
     if isinstance(x, np.ndarray):
         return {"type": type(x).__name__, "dtype": str(x.dtype), "shape": x.shape, "strides": x.strides,
-                "writeable": bool(x.flags.writeable), "values": repr(x.tolist())}      # repr: nan compares equal to nan
+                "writeable": bool(x.flags.writeable), "values": _digest(x)}
     return repr(x)
 
 
@@ -467,8 +643,12 @@ def run_impl(c):
     import scipy.sparse as sp
     from enspara.tpt import tpt
     from enspara.tpt import committors
-    T, pi = _exact(c)
-    Tf = np.array([[float(x) for x in row] for row in T])
+    if _big(c):
+        Tf, pi = _float_data(c)
+        pi = [F(x) for x in pi.tolist()]       # the doubles handed over, as rationals
+    else:
+        T, pi = _exact(c)
+        Tf = np.array([[float(x) for x in row] for row in T])
     mk = lambda: _mk_tprob(c, Tf)
     pa = _pops_arg(c, pi)
     pops = None if pa is None else np.array([float(x) for x in pa])
@@ -478,7 +658,7 @@ def run_impl(c):
     fns = {"F": ("reactive_fluxes", tpt.reactive_fluxes, _mat), "N": ("net_fluxes", tpt.net_fluxes, _mat),
            "R": ("reactive_populations", tpt.reactive_populations, _vec)}
     hist = None
-    if c["fmt"] in ("dense", "lil") and _valid(c) and c.get("layout") is None:
+    if c["fmt"] in ("dense", "lil") and _valid(c) and c.get("layout") is None and not _big(c):
         # history probe: analyse a matrix, overwrite the SAME object in place with the lag-2 model
         # (same stationary populations, still reversible), analyse again; must equal a fresh computation
         try:
@@ -508,11 +688,24 @@ def run_impl(c):
         try:
             res = _guarded(name, fn, (mk(),) + _mk_sets(c), kw(), argmut)
             out[k] = conv(res)
-            raw[k] = _dense(res)
+            raw[k] = np.array(_dense(res))      # a copy: later calls must not be able to change what is compared
         except Exception as ex:
             out[k] = {"err": type(ex).__name__, "msg": str(ex)[:120]}
     out["hist"] = hist
     out["argmut"] = argmut[:6]
+    if _big(c) and c["fmt"] != "dense":
+        # the dense computation on the same matrix (same populations, same sets)
+        ref = {}
+        try:
+            ref["q"] = _vec(committors(Tf.copy(), *_mk_sets(c)))
+        except Exception as ex:
+            ref["q"] = {"err": type(ex).__name__, "msg": str(ex)[:120]}
+        for k, (name, fn, conv) in fns.items():
+            try:
+                ref[k] = conv(fn(Tf.copy(), *_mk_sets(c), **kw()))
+            except Exception as ex:
+                ref[k] = {"err": type(ex).__name__, "msg": str(ex)[:120]}
+        out["denseref"] = ref
     # ---- call histories on SHARED argument objects: the three functions in every order, each result must be
     #      the one of the call on fresh copies (bit for bit: same code, same values)
     shared = None
@@ -573,12 +766,37 @@ def _rtol(c):
     """tolerance of the reactive-population clauses: 1e-9, except in stream `range`, where q comes out of a stiff solve
     (edge weights up to 6e3: condition <= ~1e5, error eps <= 1e-11; measured 2e-13) and R_i = d_i / sum d has the forward
     error eps (pi_i + R_i) / normaliser <= 2 eps / normaliser"""
+    if c.get("stream") == "nearsym":
+        return _near_rel(c)
     if c.get("stream") != "range":
         return TOL
     T, pi = _exact(c)
     q = _exact_q(T, c["src"], c["snk"])
     norm = 0 if q is None else sum(p * x * (1 - x) for p, x in zip(pi, q))
     return TOL if norm == 0 else max(TOL, F(2, 10 ** 11) / norm)
+
+
+NEAR_SLACK = 1      # test knob: the margin of the near-symmetric tolerances is measured by running with 1/30
+
+
+def _near_rel(c):
+    """relative tolerance of the near-symmetric rare-event stream: the stationary vector comes out of an eigen-solve whose
+    two leading eigenvalues differ by ~1/R (R the largest row sum of the counts = 1 / smallest crossing probability), and
+    is good to ~R 2^-52 relative; measured on the unchanged code over 800 chains: fluxes off by up to 5.5 * 2^-52 R of the
+    largest flux, reactive populations by less; every clause of the oracle still holds with 1/60 of this tolerance
+    (6 seeds x 36 chains).  Allowed: 1024 * 2^-52 R = R / 2^42 <= 2^-6 (a wrong stationary vector, e.g. the uniform
+    one, moves the fluxes by >= 17 % of the largest flux on these chains)."""
+    R = max(sum(r) for r in c["C"])
+    return F(R, 2 ** 42) * NEAR_SLACK
+
+
+def _ftol(c):
+    """flux clauses: 1e-9; relative to the largest exact flux in the small-magnitude and near-symmetric streams"""
+    if c.get("small"):
+        return TOL * _flux_scale(c)
+    if c.get("stream") == "nearsym":
+        return _near_rel(c) * _flux_scale(c)
+    return TOL
 
 
 def _flux_scale(c):
@@ -592,13 +810,15 @@ def _flux_scale(c):
 
 
 def oracle(c, r):
+    if _big(c):
+        return _oracle_big(c, r)
     out = []
     T, pi = _exact(c)
     pi = _pops_arg(c, pi) or pi          # the populations the code was given (exact pi when it computes them)
     n = len(T)
     src, snk = c["src"], c["snk"]
     tol = TOL
-    ftol = TOL * _flux_scale(c) if c.get("small") else TOL       # flux clauses: relative to the flux scale in the small-magnitude stream
+    ftol = _ftol(c)
     if not _valid(c):
         for k in ("F", "N", "R"):
             if "err" not in r[k]:
@@ -700,6 +920,136 @@ def oracle(c, r):
     return uniq
 
 
+def _oracle_big(c, r):
+    """the same clauses for chains with many states, evaluated in double arithmetic (numpy; rounding <= 1e-15 per entry,
+    sums over <= 700 entries <= 1e-12, against the tolerance 1e-9); the exact committor is replaced by a dense solve of the
+    committor equations done here, and the sparse containers are also compared with the code's own dense computation"""
+    out = []
+    if r.get("hist") is False:
+        out.append(("history-dependence", "re-analysing an array overwritten in place differs from a fresh computation"))
+    for m in r.get("argmut") or []:
+        out.append(("argument-modified", m))
+    for m in r.get("shared") or []:
+        out.append(("history-shared-arguments", m))
+    for k in ("q", "F", "N"):
+        if "val" not in r[k]:
+            out.append(("no-value-" + k, "%s did not return a finite array: %s" % (k, str(r[k])[:200])))
+    if out:
+        return out
+    T, pi = _float_data(c)
+    n = len(T)
+    src, snk = list(c["src"]), list(c["snk"])
+    tol = float(TOL)
+    q = np.array([float(F(x)) for x in r["q"]["val"]])
+    Fm, Nm = _unmat(r["F"]), _unmat(r["N"])
+    if q.shape != (n,) or Fm.shape != (n, n) or Nm.shape != (n, n):
+        return [("shape", "wrong shapes")]
+    mid = np.array([i for i in range(n) if i not in src and i not in snk], dtype=int)
+    # committor equations (input of the theorems)
+    want = T @ q
+    want[src] = 0.0
+    want[snk] = 1.0
+    bad = np.nonzero((np.abs(q - want) > tol) | (q < -tol) | (q > 1 + tol))[0]
+    if len(bad):
+        i = int(bad[0])
+        out.append(("committor-eqs", "q[%d]=%s violates its equation (want %s); %d of %d states do" % (i, q[i], want[i], len(bad), n)))
+    # definition
+    d = np.diag(Fm)
+    if np.any(d != 0):
+        i = int(np.nonzero(d)[0][0])
+        out.append(("flux-diagonal", "flux[%d][%d] = %s" % (i, i, d[i])))
+    W = (pi * (1 - q))[:, None] * T * q[None, :]
+    np.fill_diagonal(W, 0.0)
+    dev = np.abs(Fm - W)
+    if dev.max() > tol:
+        i, j = (int(x) for x in np.unravel_index(np.argmax(dev), dev.shape))
+        out.append(("flux-definition", "flux[%d][%d] = %s, pi_i q-_i T_ij q+_j = %s (%d entries off)" % (i, j, Fm[i, j], W[i, j], int((dev > tol).sum()))))
+    # net flux = positive part of f - f^T, elementwise
+    W = np.maximum(Fm - Fm.T, 0.0)
+    dev = np.abs(Nm - W)
+    if dev.max() > tol:
+        i, j = (int(x) for x in np.unravel_index(np.argmax(dev), dev.shape))
+        out.append(("net-definition", "net[%d][%d] = %s, (f - f^T)+ = %s (f[%d][%d] = %s, f[%d][%d] = %s; %d entries off, rows %d..%d)"
+                    % (i, j, Nm[i, j], W[i, j], i, j, Fm[i, j], j, i, Fm[j, i], int((dev > tol).sum()),
+                       int(np.nonzero((dev > tol).any(axis=1))[0].min()), int(np.nonzero((dev > tol).any(axis=1))[0].max()))))
+    if Nm.min() < 0:
+        i, j = (int(x) for x in np.unravel_index(np.argmin(Nm), Nm.shape))
+        out.append(("net-negative", "net[%d][%d] = %s" % (i, j, Nm[i, j])))
+    both = (Nm != 0) & (Nm.T != 0)
+    if both.any():
+        i, j = (int(x[0]) for x in np.nonzero(both))
+        out.append(("net-one-direction", "net[%d][%d] and net[%d][%d] both non-zero" % (i, j, j, i)))
+    rowN, colN = Nm.sum(axis=1), Nm.sum(axis=0)
+    if len(mid):
+        dv = np.abs(rowN - colN)[mid]
+        if dv.max() > tol:
+            i = int(mid[np.argmax(dv)])
+            out.append(("conservation", "intermediate state %d: net out %s, net in %s" % (i, rowN[i], colN[i])))
+        dv = np.abs(Fm.sum(axis=1) - Fm.sum(axis=0))[mid]
+        if dv.max() > tol:
+            i = int(mid[np.argmax(dv)])
+            out.append(("conservation-gross", "intermediate state %d: flux out %s, flux in %s" % (i, Fm[i].sum(), Fm[:, i].sum())))
+    for i in src:
+        if colN[i] > tol:
+            out.append(("into-sources", "net flux %s into source %d" % (colN[i], i)))
+    for i in snk:
+        if rowN[i] > tol:
+            out.append(("out-of-sinks", "net flux %s out of sink %d" % (rowN[i], i)))
+    so, si = rowN[src].sum(), colN[snk].sum()
+    if abs(so - si) > tol:
+        out.append(("source-out-eq-sink-in", "out of sources %s, into sinks %s" % (so, si)))
+    # reactive populations, against a dense solve of the committor equations done here
+    qe = _ref_q(T, src, snk)
+    dens = pi * qe * (1 - qe)
+    norm = dens.sum()
+    R = r["R"]
+    if "val" in R and norm > 1e-6:
+        rv = np.array([float(F(x)) for x in R["val"]])
+        if rv.shape != (n,) or rv.min() < -tol or abs(rv.sum() - 1) > tol:
+            out.append(("rpop-probability", "reactive populations: sum %s, min %s" % (rv.sum(), rv.min() if rv.size else None)))
+        elif np.abs(rv[src + snk]).max() > tol:
+            out.append(("rpop-sources-sinks", "reactive populations non-zero on a source/sink"))
+        elif np.abs(rv - dens / norm).max() > tol:
+            i = int(np.argmax(np.abs(rv - dens / norm)))
+            out.append(("rpop-definition", "reactive population %d = %s, want %s" % (i, rv[i], (dens / norm)[i])))
+    elif "nan" in R:
+        if norm > 1e-6:
+            out.append(("rpop-probability", "NaN reactive populations although the normaliser is %s" % norm))
+    elif "val" not in R:
+        out.append(("no-value-R", "reactive_populations: %s" % str(R)[:200]))
+    # dense and sparse inputs give the same values
+    ref = r.get("denseref")
+    if ref:
+        for k, name in (("q", "committors"), ("F", "reactive_fluxes"), ("N", "net_fluxes"), ("R", "reactive_populations")):
+            if "val" not in ref[k] or "val" not in r[k]:
+                if ("val" in ref[k]) != ("val" in r[k]):
+                    out.append(("dense-sparse-agree", "%s: %s input gives %s, dense input %s" % (name, c["fmt"], str(r[k])[:80], str(ref[k])[:80])))
+                continue
+            a, b = ((_unmat(r[k]), _unmat(ref[k])) if k in "FN" else
+                    (np.array([float(F(x)) for x in r[k]["val"]]), np.array([float(F(x)) for x in ref[k]["val"]])))
+            if a.shape != b.shape or np.abs(a - b).max() > tol:
+                out.append(("dense-sparse-agree", "%s: %s input and dense input differ by up to %s" % (
+                    name, c["fmt"], float(np.abs(a - b).max()) if a.shape == b.shape else "shape")))
+    seen, uniq = set(), []
+    for k, m in out:
+        if k not in seen:
+            seen.add(k)
+            uniq.append((k, m))
+    return uniq
+
+
+def _ref_q(T, src, snk):
+    """forward committor by a dense solve of its defining equations (numpy; well-conditioned chains only)"""
+    n = len(T)
+    A = np.eye(n) - T
+    b = np.zeros(n)
+    for i in list(src) + list(snk):
+        A[i, :] = 0.0
+        A[i, i] = 1.0
+    b[list(snk)] = 1.0
+    return np.linalg.solve(A, b)
+
+
 # ----------------------------------------------------------------------------- Coq side
 def _ql(v):
     return clist(v, cq, "Q")
@@ -728,11 +1078,13 @@ def _optmat(x):
 
 
 def coq_check(c, r):
+    if _big(c):
+        return None         # many states: oracle only (exact elimination of a 60..700-state system inside Coq is out of reach)
     pre = _prelude(c)
     if pre is None:
         return None
     tol = cq(TOL)
-    ftol = cq(TOL * _flux_scale(c)) if c.get("small") else tol
+    ftol = cq(_ftol(c))
     rtol = cq(_rtol(c))
     Fi, Ni = _optmat(r["F"]), _optmat(r["N"])
     if Fi is None or Ni is None:
@@ -775,6 +1127,8 @@ def _zero_norm(c):
 
 
 def coq_show(c):
+    if _big(c):
+        return "tt"
     pre = _prelude(c)
     if pre is None:
         return "tt"
@@ -792,6 +1146,9 @@ def _info(c):
 def nontrivial(c, r):
     if not _valid(c):
         return False
+    if _big(c):
+        q = r.get("q", {}).get("val")
+        return bool(q) and sum(1 for x in q if 0 < F(x) < 1) >= 2
     T, pi, q = _info(c)
     if q is None:
         return False
@@ -802,6 +1159,23 @@ def tags(c, r):
     t = ["dense" if c["fmt"] == "dense" else "sparse", "fmt-" + c["fmt"], "pops-" + c["pops"], "n=%d" % len(c["C"])]
     if not _valid(c):
         return t + ["malformed-populations-length"]
+    if _big(c):
+        n = len(c["C"])
+        t += ["stream-" + c["stream"], "nonuniform-pi"]
+        if all("val" in r.get(k, {}) for k in "qFNR"):
+            if c["fmt"] == "dense" and n > 512:
+                t.append("large-dense-over-512-states")
+            else:
+                t.append("large-%s-60-to-300-states" % ("dense" if c["fmt"] == "dense" else "sparse"))
+                if c["fmt"] != "dense" and n >= 200:
+                    t.append("large-sparse-200plus-states")
+                if r.get("denseref"):
+                    t.append("large-sparse-compared-with-dense")
+            if r.get("shared") is not None:
+                t.append("shared-argument-histories-all-6-orders")
+            if len(r["N"].get("v") or []) > 0:
+                t.append("some-net-flux")
+        return t
     T, pi, q = _info(c)
     n = len(T)
     if len(c["src"]) > 1:
@@ -855,6 +1229,9 @@ def tags(c, r):
             net = [f[i][j] - f[j][i] for i in range(n) for j in range(n) if f[i][j] > f[j][i]]
             if net and min(net) * 1000 < max(net):
                 t.append("net-fluxes-span-3-decades")
+        if c.get("stream") == "nearsym" and "val" in r.get("F", {}):
+            t.append("nearsym-pops-" + c["pops"])
+            t.append("nearsym-" + ("dense" if c["fmt"] == "dense" else "sparse"))
         if c.get("small"):
             t.append("small-" + c["small"])
             pg = _pops_arg(c, pi)
@@ -882,7 +1259,11 @@ ESSENTIAL_TAGS = ["dense", "sparse", "pops-given", "pops-given-unnormalised", "p
                   "layout-f32", "fortran-contiguous-dense-with-reactive-self-transition",
                   "non-contiguous-dense-with-reactive-self-transition", "sparse-repr-ro", "sparse-repr-explicit-zeros",
                   "small-scaled", "small-rare", "net-flux-partly-below-1e-12", "net-flux-wholly-below-1e-12",
-                  "sparse-net-flux-below-1e-12", "scale-covariance-checked", "net-fluxes-span-3-decades"]
+                  "sparse-net-flux-below-1e-12", "scale-covariance-checked", "net-fluxes-span-3-decades",
+                  # round 3s, second wave
+                  "nearsym-pops-computed", "nearsym-pops-given", "nearsym-dense", "nearsym-sparse",
+                  "large-sparse-60-to-300-states", "large-sparse-200plus-states", "large-sparse-compared-with-dense",
+                  "large-dense-60-to-300-states", "large-dense-over-512-states"]
 
 
 def search(rng, tier):
